@@ -7,7 +7,7 @@ from ..core import Corr, Untranslatable, Violation
 
 ID = "C10"
 LEVEL = "proof"
-COQ_FILES = ["Tie/C10_tie.v", "Props/C10_props.v"]
+COQ_FILES = ["Tie/C10_defs.v", "Tie/C10_tie.v", "Props/C10_props.v"]
 PROPS_FILES = ["C10_props.v"]
 TRUSTED_BASE = [
     "py2gallina unit 'crop/pad' (center_crop bounds and guard, pad_tensor's list as passed to F.pad, complex_center_crop start)",
@@ -136,7 +136,7 @@ def _pad_tensor_rank(fn, body, k, path):
 
 
 # ------------------------------------------------------------------------------------------------
-PRE = "From DV Require Import Base.Tactics Base.NList Model.C10.\nFrom G Require Import C10_gen C10_tie.\nOpen Scope Z_scope.\n"
+PRE = "From DV Require Import Base.Tactics Base.NList Model.C10.\nFrom G Require Import C10_gen C10_defs.\nOpen Scope Z_scope.\n"
 
 
 def _iota(shape):
